@@ -54,11 +54,27 @@ def run(chk: Check):
                 "pre-snap points captured by wrapping digitize_data; R-sequence likewise. non-trivial = dims >= 2 and >= 2 points")
     chk.trusted_base = ["Lean 4.33 kernel", "Mathlib (Nat.digits, Nat.Prime, Order.Floor, field_simp/ring)",
                         "IEEE + * / identical in Lean Float and numpy elementwise ops; x % 1 == x - floor(x) for x >= 0",
-                        "phi (fixed point of pow) and alpha = phi^-j are transcendental evaluations: tolerance-checked, not proved",
+                        "the C library's pow (behind Python's pow and Lean's Float.pow): the compute_phi loop is tied bit for bit to Halton.phiLoop at binary64; that pow(y, 1/(d+1)) is the exact root is "
+                        "the contract under which phi_is_generalised_golden_ratio holds (residual |phi^(d+1) - phi - 1| <= 1e-12 checked); np.power may differ from pow by an ulp, alpha compared within 2 ulp",
                         "harness/props/c13.py + lean/Driver.lean"]
     chk.assumptions = ["radical-inverse theorem is over an exact field; the binary64 loop is tied bit-for-bit to the Float instance and "
                        "to the exact value within 2^-50", "prime table proved for d <= 40 (the property's range) by kernel evaluation"]
     chk.proof_stage(PROP_FILE)
+    # ---- compute_phi against Halton.phiLoop (bit for bit) and the step vector against Halton.alphas (within 2 ulp: np.power is not pow), every dimension of the quantifier
+    dims_phi = list(range(1, 41)) + ([rng.randint(41, 400) for _ in range(5)] if chk.tier == "quick" else list(range(41, 400)))
+    for d, ans in zip(dims_phi, lean_run([f"rseq.phi {d}" for d in dims_phi])):
+        phi = rm.RSequenceSampler.compute_phi(d)
+        alpha = np.power(1 / phi, np.arange(1, d + 1))
+        chk.case(["phi", d], True, {"op": "compute_phi", "dims": d, "phi": phi})
+        chk.count("phi_loop_bit_exact_cases")
+        if " | " not in ans or ans.split(" | ")[0] != f2h(phi):
+            chk.disagree(f"RSequenceSampler.compute_phi({d}) != BlackIt.Halton.phiLoop at binary64", {"dims": d, "impl": f2h(phi), "model": ans[:40]})
+            if not (abs(phi ** (d + 1) - (phi + 1)) <= 1e-12 * (d + 1)):
+                chk.fail(f"compute_phi({d}) = {phi!r} is not the generalised golden ratio: phi^(d+1) - phi - 1 = {phi ** (d + 1) - phi - 1!r}", {"case": {"kind": "phi", "d": d}})
+            continue
+        model_alpha = [h2f(t) for t in ans.split(" | ")[1].split(" ")]
+        if len(model_alpha) != d or any(abs(a - b) > 2 * np.spacing(abs(b)) for a, b in zip(alpha.tolist(), model_alpha)):
+            chk.disagree(f"np.power(1/phi, 1..{d}) is not within 2 ulp of BlackIt.Halton.alphas", {"dims": d, "impl": alpha.tolist()[:6], "model": model_alpha[:6]})
 
     reqs, meta = [], []
     # ---- primes
@@ -92,16 +108,25 @@ def run(chk: Check):
     # run the implementation first for the sampler cases (their requests depend on the recorded seed draws)
     impl_out = {}
     h_reuse = []
+    h_pool = []
     r_reuse = []
     for i, m in enumerate(meta):
         if m[0] == "hsampler":
             _, seed, d, sizes, forced = m
-            if h_reuse and i % 2 == 0:
+            if not h_pool:
+                # several sampler objects alive at once, built before any of them is used, then used in turns on spaces of changing dimension
+                h_pool.extend(hm.HaltonSampler(batch_size=1, random_state=0) for _ in range(3))
+            if i % 4 == 1:
+                smp = h_pool[(i // 4) % len(h_pool)]
+                chk.count("halton_object:one_of_several_alive_used_in_turns")
+            elif h_reuse and i % 2 == 0:
                 smp = h_reuse[0]          # one long-lived sampler object serving spaces of changing dimension (prime tables, cursors must follow)
                 chk.count("halton_object:reused")
             else:
                 smp = hm.HaltonSampler(batch_size=sizes[0], random_state=0)
                 h_reuse[:] = [smp]
+                if i % 8 == 3:
+                    h_pool[(i // 8) % len(h_pool)] = smp      # a sampler built in the middle of the others' lives joins them
             g = install(smp, RecGen(seed)); smp._reset_sequence_index()
             s0 = int(smp._sequence_index)
             drawn = [x for x in g.log if x[0] == "integers"]
